@@ -20,6 +20,7 @@ import (
 	"sort"
 	"strconv"
 	"strings"
+	"sync/atomic"
 	"syscall"
 	"time"
 
@@ -48,6 +49,15 @@ var (
 )
 
 var stdout = os.Stdout
+
+// progress / phase: what the watchdog looks at
+var progress int64
+var phase atomic.Value
+
+func step(ph string) {
+	phase.Store(ph)
+	atomic.AddInt64(&progress, 1)
+}
 
 type cmdInfo struct{ read, write, merge, mergewrite, internal bool }
 
@@ -143,6 +153,7 @@ func main() {
 			}
 		}
 		if *big {
+			vecs = append(vecs, dictionarySweep(names)...)
 			bv := bigVectors()
 			// spread them over the run
 			for i, v := range bv {
@@ -167,6 +178,27 @@ func main() {
 	flushAll := func() { co.Flush(); io.Flush(); oo.Flush(); vo.Flush() }
 	oo.Printf("CFG\tpolicy=%s engine=%s\n", *policy, *engName)
 
+	// watchdog: no progress for 90 s (an engine lock that is never released, a close that waits for it ...)
+	// => dump the goroutines, name the phase in the journal and stop with exit code 6
+	go func() {
+		last, lastAt := int64(-1), time.Now()
+		for {
+			time.Sleep(3 * time.Second)
+			cur := atomic.LoadInt64(&progress)
+			if cur != last {
+				last, lastAt = cur, time.Now()
+				continue
+			}
+			if time.Since(lastAt) > 90*time.Second {
+				buf := make([]byte, 1<<22)
+				n := runtime.Stack(buf, true)
+				fmt.Fprintf(os.Stderr, "WATCHDOG: no progress for 90 s in phase %v\n%s\n", phase.Load(), buf[:n])
+				fmt.Fprintf(jf, "WATCHDOG\t%v\n", phase.Load())
+				jf.Sync()
+				os.Exit(6)
+			}
+		}
+	}()
 	ln, err := startNode(*port, *engName, *policy)
 	if err != nil {
 		fmt.Fprintln(stdout, "INCONCLUSIVE server start:", err)
@@ -204,7 +236,15 @@ func main() {
 		fmt.Fprintln(stdout, "replicas:", err1, err2)
 		os.Exit(2)
 	}
-	defer func() { sand.close(); ra.close(); rb.close() }()
+	defer func() {
+		step("close")
+		done := make(chan struct{})
+		go func() { sand.close(); ra.close(); rb.close(); close(done) }()
+		select {
+		case <-done:
+		case <-time.After(10 * time.Second): // a leaked engine lock: the process ends anyway
+		}
+	}()
 
 	ts0 := time.Now().UnixNano()
 	tick := int64(0)
@@ -245,6 +285,7 @@ func main() {
 		if len(queue) == 0 {
 			return
 		}
+		step("pairflush:" + queue[len(queue)-1].id)
 		pairFlushes++
 		// split the queue into entries of 1..3 requests
 		var entries [][]applyReq
@@ -324,6 +365,30 @@ func main() {
 	}
 	flushAt := 1 + r.Pick(6)
 
+	// U cases: node.isUnrecoveryError on texts around the texts it could match (model: is_unrecovery)
+	if *replay == "" {
+		pats := []string{"IO error: No space left on device", "no space left on device", "IO error", "write /d/000001.log: no space left on device"}
+		var texts []string
+		for _, p := range pats {
+			texts = append(texts, p, strings.ToLower(p), strings.ToUpper(p), "x"+p, p+" (disk full)", p[:len(p)-1], p[1:],
+				"strconv.Atoi: parsing \""+p+"\": invalid syntax", "strconv.ParseInt: parsing \""+strings.ToLower(p)+"\": invalid syntax",
+				"ERR wrong number of arguments for '"+p+"' command")
+		}
+		texts = append(texts, "", "I", "invalid arguments", "IO error: No space left on devic", "IO error: No space left on device")
+		for k := 0; k < 40; k++ {
+			b := r.Bytes(r.Pick(50), []byte("IO error: Nspacltfnv.xX \""))
+			texts = append(texts, string(b))
+		}
+		for k, t := range texts {
+			co.Printf("U%d\tU\t%s\n", k+1, hx.H([]byte(t)))
+			v := "0"
+			if node.VerifIsUnrecoveryError(t) {
+				v = "1"
+			}
+			io.Printf("U%d\t%s\n", k+1, v)
+		}
+	}
+
 	for i, v := range vecs {
 		id := ids[i]
 		name := strings.ToLower(string(v.args[0]))
@@ -373,6 +438,7 @@ func main() {
 			oo.Printf("L%s\tkind=%s verdict=avoided reply=avoided sig=%s\n", id, kind, sig)
 			continue
 		}
+		step("live:" + id)
 		facts := ln.facts(v.args)
 		co.Printf("L%s\tL\t%s\t%s\t%s\n", id, argsH, facts, floatTable(v.args))
 		flushAll()
@@ -406,7 +472,7 @@ func main() {
 			if pobs.reply == "timeout" {
 				// the probe was proposed but not answered in time: wait (up to 60 s) for the apply loop to
 				// catch up before calling the node stuck; the late probe has been applied by then
-				deadline := time.Now().Add(60 * time.Second)
+				deadline := time.Now().Add(45 * time.Second)
 				for time.Now().Before(deadline) && ln.nd.GetAppliedIndex() < ln.nd.GetRaftStatus().Commit {
 					time.Sleep(100 * time.Millisecond)
 				}
@@ -418,6 +484,12 @@ func main() {
 					buf := make([]byte, 1<<22)
 					n := runtime.Stack(buf, true)
 					fmt.Fprintf(os.Stderr, "APPLY LOOP STUCK: applied=%d commit=%d\n%s\n", ln.nd.GetAppliedIndex(), ln.nd.GetRaftStatus().Commit, buf[:n])
+					// the live node does not apply any more: report and stop (every further write would wait)
+					oo.Printf("L%s\tkind=%s verdict=%s reply=%s nrep=%d changed=%d probe=stuck err=-\n", id, kind, verdict, obs.reply, obs.nrep, obs.changed)
+					oo.Printf("END\tvectors=%d stuck=L%s\n", i+1, id)
+					flushAll()
+					fmt.Fprintf(jf, "STUCK\tL%s\n", id)
+					os.Exit(5)
 				}
 			}
 			probe = "ok"
@@ -442,6 +514,7 @@ func main() {
 		}
 		oo.Printf("\n")
 
+		step("sandbox:" + id)
 		// sandbox: the vector as an apply-side request, both encodings
 		for form := 1; form <= 2; form++ {
 			var rq applyReq
@@ -466,7 +539,11 @@ func main() {
 			} else {
 				rs = res.rsp[0]
 			}
-			io.Printf("A%s.%d\t%s %s\n", id, form, out, rs)
+			etx := "-"
+			if rs == "err" {
+				etx = hx.H([]byte(trunc(res.etxt[0], 48)))
+			}
+			io.Printf("A%s.%d\t%s %s %s\n", id, form, out, rs, etx)
 			if rs == "err" {
 				// an erroring request must leave the committed state alone and nothing in the shared
 				// batch: the next successful write (health probe) must change its own keys only
@@ -503,7 +580,7 @@ func main() {
 					if ns, err := newSimSM("sand", *engName, *policy); err == nil {
 						sand = ns
 						if !h.hung {
-							old.close()
+							go old.close() // may wait for a leaked engine lock
 						}
 					}
 				}
@@ -513,6 +590,7 @@ func main() {
 		if r.Pick(40) == 0 {
 			jumpTs()
 		}
+		step("pair:" + id)
 		// replica pair: only what the leader really accepted
 		if verdict == "prop" && ra.name != "dead" && name != "geoadd" {
 			if rq, ok := toApplyForm(v.args, len(queue)%3 == 2); ok {
